@@ -37,17 +37,28 @@ def run(seed):
         subprocess.run(["git", "-C", "/repo", "worktree", "remove", "--force", wt], capture_output=True)
 
 
-with ThreadPoolExecutor(8) as ex:
-    results = dict(ex.map(run, seeds))
-shutil.rmtree(SNAP, ignore_errors=True)
+import threading
+from concurrent.futures import as_completed
+
 matrix_path = VERIF / SEED_DIR / "MATRIX.json"
-old = json.loads(matrix_path.read_text()) if matrix_path.exists() else {}
-old.update(results)
-matrix_path.write_text(json.dumps(old, indent=1, sort_keys=True))
-for seed in seeds:
-    r = results[seed]
-    if "error" in r:
-        print(seed, r["error"]); continue
-    hit = [f"{p}({','.join(v['rules'])})" for p, v in r.items() if v["exit"] == 1]
-    und = [f"{p}:{v.get('msg')}" for p, v in r.items() if v["exit"] == 2]
-    print(f"{seed:14s} {'CAUGHT ' + ' '.join(hit) if hit else 'missed'}" + (f"   UNDECIDED {und}" if und else ""))
+lock = threading.Lock()
+
+
+def report(seed, r):
+    with lock:  # results are stored as they arrive, so an interrupted run keeps what it has
+        old = json.loads(matrix_path.read_text()) if matrix_path.exists() else {}
+        old[seed] = r
+        matrix_path.write_text(json.dumps(old, indent=1, sort_keys=True))
+        if "error" in r:
+            print(seed, r["error"], flush=True)
+            return
+        hit = [f"{p}({','.join(v['rules'])})" for p, v in r.items() if v["exit"] == 1]
+        und = [f"{p}:{v.get('msg')}" for p, v in r.items() if v["exit"] == 2]
+        print(f"{seed:14s} {'CAUGHT ' + ' '.join(hit) if hit else 'missed'}" + (f"   UNDECIDED {und}" if und else ""), flush=True)
+
+
+with ThreadPoolExecutor(int(os.environ.get("MATRIX_JOBS", "8"))) as ex:
+    futs = [ex.submit(run, s) for s in seeds]
+    for f in as_completed(futs):
+        report(*f.result())
+shutil.rmtree(SNAP, ignore_errors=True)
